@@ -181,7 +181,12 @@ def _main(a, prop, mod, t0, tmp):
             else:
                 flaky.append((mech, path, v, rr.get('status'), (rr.get('crash') or '')[-500:]))
 
-    floors = getattr(mod, 'FLOORS', {}).get(tier, {})
+    floors = dict(getattr(mod, 'FLOORS', {}).get('quick', {}))
+    if tier == 'thorough':
+        # the thorough tier runs the same workload families 4x wider and ~10x longer: it must observe at least twice
+        # what the quick tier must, plus what the module demands for thorough only (e.g. exhaustive enumerations)
+        floors = {k: v * 2 for k, v in floors.items()}
+        floors.update(getattr(mod, 'FLOORS_THOROUGH', {}))
     unmet = []
     for k, m in floors.items():
         if k == 'distinct_nontrivial':
